@@ -14,6 +14,7 @@ ItemsF == <<"oncenull", "async">>
 ItemsH == <<"async", "fail", "spinasync">>
 ItemsI == <<"spinasync", "async", "fail">>
 ItemsJ == <<"async", "spinasync", "once">>
+ItemsK == <<"oncearg", "async", "col">>
 
 ExportJson == Returned => PrintT(ToJson([items |-> Items, nrows |-> NRows, nested |-> Nested, failrow |-> FailRow, window |-> (IF EmptyWindow THEN "empty" ELSE "all"), sched |-> sched,
                                          cell |-> [r \in Rows |-> [i \in Its |-> cell[r][i]]]]))
